@@ -146,7 +146,14 @@ static int scenario(int variant)
             "(%d datagrams exchanged)\n", variant, g_nall);
         return 1;
     }
-    printf("handshake completed\n");
+    if (!exchange_check(&C, &S, "demo1"))
+    {
+        printf("VIOLATION: variant %d: handshake completed but application "
+            "data does not flow\n", variant);
+        return 1;
+    }
+    printf("OK: variant %d: handshake completed after %d timeout round(s), "
+        "application data delivered once each way\n", variant, rounds);
     return 0;
 }
 
